@@ -22,7 +22,7 @@ func init() {
 		}
 		return CoqList(secs)
 	})
-	registerDirected(
+	registerDirectedFor("C17",
 		// the requester gets no agreement: timer fires / restart / restart then (stale) timer
 		directed{"out_sender", "btc", []string{"start", "timeout"}},
 		directed{"out_sender", "lbtc", []string{"start", "restart"}},
